@@ -420,7 +420,7 @@ pub fn run(a: &Args, m: &mut Mon) {
     m.floors(FLOORS);
     canaries(m);
     let mut r = Rng::lane(a.seed, "C15", a.shard, 0);
-    let n = a.n(100_000, 5_000_000);
+    let n = a.n(600_000, 30_000_000);
     for k in 0..n {
         let nn = match r.below(10) {
             0 => 1,
